@@ -47,16 +47,34 @@ Definition add_group (w : world) (c : pcfg) (e1 : ev) : world * list weff :=
   let w1 := mkW (w_pools w ++ [p]) (subscribe_pool (w_callbacks w) pi p) (w_gserial w) (w_events w) (w_maxint w) in
   let '(w2, o) := emit w1 e1 T_ProcessGroupAddedEvent in (w2, ERegroup pi :: o).
 
+(* Supervisor.run() of a new daemon life (in-process restart): events.clear()
+   empties the subscription table, then add_process_group for every configured
+   group, in order; es = the PROCESS_GROUP_ADDED event objects *)
+Fixpoint add_groups (w : world) (cs : list pcfg) (es : list ev) : world * list weff :=
+  match cs with
+  | [] => (w, [])
+  | c :: r => let '(w1, o1) := add_group w c (hd 0 es) in
+              let '(w2, o2) := add_groups w1 r (tl es) in (w2, o1 ++ o2)
+  end.
+
+Definition clear_callbacks (w : world) : world :=
+  mkW (w_pools w) [] (w_gserial w) (w_events w) (w_maxint w).
+
+Definition restart (w : world) (cs : list pcfg) (es : list ev) : world * list weff :=
+  add_groups (clear_callbacks w) cs es.
+
 Inductive gop :=
 | GOp (op : wop)
 | GRemove (pi : nat) (e1 : ev)
-| GAdd (c : pcfg) (e1 : ev).
+| GAdd (c : pcfg) (e1 : ev)
+| GRestart (cs : list pcfg) (es : list ev).
 
 Definition gstep (h : handler) (maxdig : Z) (w : world) (g : gop) : world * list weff :=
   match g with
   | GOp op => wstep h maxdig w op
   | GRemove pi e1 => remove_group w pi e1
   | GAdd c e1 => add_group w c e1
+  | GRestart cs es => restart w cs es
   end.
 
 Fixpoint grun (h : handler) (maxdig : Z) (w : world) (gs : list gop) : world * list weff :=
